@@ -251,7 +251,7 @@ func (w *World) CheckObject(fm *FileModel, s *Spec, structName string, path stri
 			continue
 		}
 		out = append(out, w.checkFieldType(fm, p, F, ppath)...)
-		out = append(out, w.checkValue(fm, p.Spec, S, F, ppath)...)
+		out = append(out, w.checkValue(fm, p.Spec, S, F, ppath, !p.Required || p.Spec.Null != "")...)
 		out = append(out, w.checkDefault(fm, p, S, F, ppath)...)
 	}
 	return out
@@ -447,9 +447,18 @@ func specShape(s *Spec) string {
 }
 
 // checkValue compares the value constraints of a property (or definition) with the emitted reject branches.
-func (w *World) checkValue(fm *FileModel, s *Spec, S *Struct, F *Field, path string) []Issue {
+func (w *World) checkValue(fm *FileModel, s *Spec, S *Struct, F *Field, path string, mayBeNil bool) []Issue {
 	var out []Issue
 	exp := w.ExpectedRejects(s)
+	if s.Kind == "array" && mayBeNil {
+		// an optional or nullable array that is absent / null decodes to a nil slice, which the schema does not constrain: a lower
+		// limit on its length must not be applied to it (len(nil) < N holds for every N > 0)
+		for i := range exp {
+			if exp[i].Len && exp[i].Depth == 0 && exp[i].Op == "<" {
+				exp[i].NeedNilGuard = true
+			}
+		}
+	}
 	skipRejects := false
 	ft, isPtr := stripPtr(F.Type)
 	named := fm.Types[ft]
@@ -721,6 +730,21 @@ func remainDecodeIssues(fm *FileModel, m *skel.Method, name string) []Issue {
 					for _, f := range st.Fields {
 						if f.Name == field {
 							ft = f.Type
+							// A-COLLECT: the destination of the remainder decode is the collector — a field bound to NO key of its own
+							// (`mapstructure:",remain"`, json/yaml "-"). A field that carries a declared property's name receives every
+							// undeclared key of the document on top of (or instead of) its own value.
+							bound := ""
+							for _, k := range []string{"json", "yaml", "mapstructure"} {
+								if v, ok := f.Tags[k]; ok {
+									if nm := strings.Split(v, ",")[0]; nm != "" && nm != "-" {
+										bound = k + ":" + nm
+									}
+								}
+							}
+							if bound != "" {
+								out = append(out, Issue{Rule: "A-COLLECT", Construct: "undeclared keys decoded into a field that is bound to a declared property",
+									Msg: fmt.Sprintf("%s: `%s` collects the undeclared keys of the document into %s.%s, whose tag binds it to the property %s: a declared property is taken for the additional-properties collector", name, in, st.Name, field, bound)})
+							}
 						}
 					}
 					preset := false
